@@ -748,3 +748,89 @@ Example C01_program_example_cached_window :
   cached_win_worker dated_ex dtspan_ex 4 (mkRp 2 1 [true] Caches.KSeq) A B f_six = text_worker dated_ex dtspan_ex 4 A B false f_six.
 Proof. exact ex_cached_window. Qed.
 Print Assumptions C01_program_example_cached_window.
+
+(* ==========================================================================================
+   FOURTH STAGE: NO TIMESTAMP ORACLE FOR TEXT SOURCES (Proofs/ProgramRegex.v; work package B's regex model).
+   A source of kind [KTextRows (rx_dated yo off) rx_rows] is read as the code reads it: stage 1 is the complete
+   block-zero analysis Model/Gate.gate_rows over ALL rows of the regenerated pattern table, where "row i dates line l"
+   is work package B's proved function of the BYTES (slice -> regex search -> named groups -> captures -> normalise +
+   chrono: Model/RegexDt.dated_model); the row it names dates every line in stages 2 + 3 (cached reader machine,
+   search, coordinator, printer, summary as above).  program_m / program_spec for such sources consult no `dated`
+   oracle (the o_dated / o_ydate components of the oracle record are unused; o_dtspan only places colour).
+   ========================================================================================== *)
+From S4.Model Require GateSpec Regex RegexNum.
+From S4.Proofs Require RegexChoice ProgramRegex.
+Module RegexText.
+Import ProgramRegex.
+
+(* Layer A: every hypothesis is a statement about the file's BYTES (ProgramRegex.rx_bytes_ok: the bs-free decision
+   names row r; under r's regex model the messages are chronological and >= 2 bytes and no single byte is dated; the
+   analysis at bs decides as the bs-free decision); sources of the kinds without timestamp oracle (records, event
+   logs, journals) as in Program.src_ok; KText / KYearless (oracle kinds) excluded *)
+Theorem C01_program_correct_rows : forall yo off O cap bs rps sched o files,
+  (0 < bs)%N -> span_ok (o_dtspan O) -> Forall (rx_src_ok yo off O bs o) files ->
+  complete O cap o files sched ->
+  program_m O cap bs rps sched o files = POk (program_spec O o files).
+Proof. exact program_correct_rows. Qed.
+Print Assumptions C01_program_correct_rows.
+
+(* bytes -> regex -> captures -> normalise -> instant is the instant of the NUMBERS on a numeric family line of the
+   row (C04_regex_numbers, timestamp at the start of the line) *)
+Theorem C01_regex_line_instant : forall yo off row dr rd l, row_ok off row dr -> numeric_line yo row dr rd l ->
+  rxd yo off (Regex.rx_index row) l = Some (RegexNum.fread_instant rd yo off).
+Proof. exact numeric_line_instant. Qed.
+Print Assumptions C01_regex_line_instant.
+
+(* a file DESCRIBED line by line (a dated line = numeric family line of row r with its reading and >= 2 bytes; any other
+   line = one on which row r's model gives nothing - that is how "continuation line" is stated): its messages carry the
+   instants of the numbers, in file order *)
+Theorem C01_regex_spec_instants : forall yo off row dr (f : Chunk.file) ds, row_ok off row dr -> described yo off row dr f ds ->
+  map fst (LinesSpec.syslines (rxd yo off (Regex.rx_index row)) f) = desc_instants yo off ds.
+Proof. exact regex_spec_instants. Qed.
+Print Assumptions C01_regex_spec_instants.
+
+(* Layer B: the byte-level hypotheses follow from the NUMBER-level description (ProgramRegex.rx_file_numbers: row
+   numeric; the description above with instants that do not step back; bytes < 256 and the row silent on single bytes;
+   permitted block size outside the classes F3a-d (C12 gate_accept_spec), file not too small / not null bytes; the
+   choice rule on the first dated line: C04_regex_choice_numeric, nothing to check for rows 0, 7, 24, 25) *)
+Theorem C01_regex_file_domain : forall yo off bs row dr (f : Chunk.file) ds, rx_file_numbers yo off bs row dr f ds ->
+  rx_bytes_ok yo off bs f (Regex.rx_index row).
+Proof. exact rx_file_domain. Qed.
+Print Assumptions C01_regex_file_domain.
+
+(* THE COROLLARY of C01_program_correct: bytes -> regex -> captures -> normalise -> instant -> window -> merge -> print
+   as ONE theorem, no oracle for text sources *)
+Theorem C01_program_correct_regex : forall yo off O cap bs rps sched o files,
+  (0 < bs)%N -> span_ok (o_dtspan O) -> Forall (rx_src_numbers yo off O bs o) files ->
+  complete O cap o files sched ->
+  program_m O cap bs rps sched o files = POk (program_spec O o files).
+Proof. exact program_correct_regex. Qed.
+Print Assumptions C01_program_correct_regex.
+
+(* ... where the specification lists, for such a source, the windowed groups under the chosen row's model, and their
+   instants are those the NUMBERS denote (program_spec sorts all sources by them: stable, source order on ties) *)
+Theorem C01_program_spec_regex_source : forall yo off O bs o pf row dr ds, pf_kind pf = rx_kind yo off ->
+  rx_file_numbers yo off bs row dr (pf_data pf) ds ->
+  spec_out O o pf = text_spec (rxd yo off (Regex.rx_index row)) (o_dtspan O) (op_after o) (op_before o) (pf_data pf) /\
+  map fst (LinesSpec.syslines (rxd yo off (Regex.rx_index row)) (pf_data pf)) = desc_instants yo off ds.
+Proof. exact program_spec_regex_source. Qed.
+Print Assumptions C01_program_spec_regex_source.
+
+(* concrete files in two rows' notations: samba "[2000/01/01 00:00:01.123] ..." = row 0 (no competitors), seekable, and
+   "2000-01-01 00:00:02 daemon[17]: ..." = row 79 (24 listed competitors, all silent), streamed; each with a continuation
+   line; both satisfy the number-level description ... *)
+Example C01_regex_example_files :
+  rx_file_numbers None 0 256 row0 (dr_at 0) fA dsA /\ rx_file_numbers None 0 256 row79 (dr_at 79) fB dsB.
+Proof. exact (conj fA_numbers fB_numbers). Qed.
+Print Assumptions C01_regex_example_files.
+
+(* ... and `s4 -n -a 2000-01-01T00:00:02 --summary smbd.log daemon.log.gz` at block size 256 *)
+Example C01_regex_example_program :
+  GateSpec.spec_accept (rxd None 0) RegexChoice.rx_rows fA = Some 0%N /\
+  GateSpec.spec_accept (rxd None 0) RegexChoice.rx_rows fB = Some 79%N /\
+  program_m O_rx 2 256 rps_ex sched_rx opts_rx files_rx = POk (program_spec O_rx opts_rx files_rx) /\
+  Print.payload (fst (program_spec O_rx opts_rx files_rx)) = expected_rx /\
+  Summary.u_sys (snd (program_spec O_rx opts_rx files_rx)) = 5%N.
+Proof. exact ex_regex_program. Qed.
+Print Assumptions C01_regex_example_program.
+End RegexText.
